@@ -7,7 +7,6 @@ NA = {
     'C02': 'whole-interpreter semantics over all programs, implemented as mutually recursive async executors on Env; no function-level contract expresses it and neither verifier can hold a symbolic program',
     'C05': 'directory walk over the System trait whose per-name decision is a regex-engine call; needs a file-system and regex model, not a contract on this code',
     'C06': 'totality and print/re-parse equality of the entire async parser and its Display impls over all strings; a whole-call-graph property, out of both tools\' subset/capacity',
-    'C09': 'every step is a system call on the process descriptor table under fault injection; needs the table as ghost state of VirtualSystem (a model in Verus, out of capacity in Kani)',
     'C13': 'quantified over process schedules; the family is silent on concurrency, and the mechanism is async over shared Rc<RefCell> state',
     'C14': 'quantified over schedules; the only object-level kernel (FIFO buffer) has 512/1024-byte constants and VecDeque byte loops beyond Kani\'s reach and outside Verus\'s subset',
     'C15': 'all-interleavings / fairness property of an Rc<RefCell> run queue with a raw waker vtable; with dyn Future inputs nothing is symbolic, and liveness is not decided by contracts',
@@ -106,6 +105,10 @@ TECH.update({
 LEVEL_TEXT['C10'] = 'Kernel only. Unbounded deductive proof (Verus) that errexit applies iff the option is on and no frame of the runtime stack, at any depth, is a Condition frame, that apply_errexit exits exactly on a failing status there, and that apply_result moves the exit status of a divert into $?; bounded Kani sibling on real Env values (stacks of <= 3 frames). Where Condition frames are pushed and how each kind of shell error ends a command is async interpreter code and is not decided.'
 NOTE['C10'] = 'Kernel only (the dynamic context stack decision). Trusted: Verus/Z3, Kani/CBMC; Env reduced to three fields in the Verus unit; OptionSet::get and slice::contains assumed; RandomState::new stubbed in Kani. Not covered: pushing of Condition frames, callers of apply_errexit, the shell-error consequence table.'
 TECH['C10'] = 'contract-based deductive verification (Verus, Z3) of Env::errexit_is_applicable / apply_errexit / apply_result + bounded Kani sibling on the real crate'
+
+LEVEL_TEXT['C09'] = 'Kernel only. Unbounded deductive proof (Verus) on the real perform / RedirGuard code, against an assumed model of the descriptor table: a redirection saves the target in a close-on-exec descriptor >= 10, changes the target only, refuses targets the shell reserves, and leaves the table unchanged on every failure; the guard restores exactly the initial table (undo_redirs, Drop) for any number of redirections, or closes every backing copy (preserve_redirs). What each operator opens, the expansion of operands and the interpreter\'s use of the guard are assumed or not decided; level other because the claim is a kernel over a model of the OS side.'
+NOTE['C09'] = 'Kernel only. Trusted: Verus/Z3; the descriptor-table model of Close/Dup/Fcntl; assumed contracts for the openers (open_normal, here_doc::open_fd) and for expansion; await points dropped; loops over drain() checked in an equivalent form. Not covered: noclobber / operator semantics, here-document content, callers of RedirGuard, move_fd_internal, VirtualSystem.'
+TECH['C09'] = 'contract-based deductive verification (Verus, Z3) of perform / replace_target / RedirGuard::{new, perform_redir, undo_redirs, preserve_redirs, drop} against a ghost descriptor table'
 
 
 def main():
